@@ -79,7 +79,7 @@ func registeredBody(r *core.Rand, pt, count uint8) ([]byte, gen.Kind) {
 func runC07(c *core.Ctx) {
 	// (1) dispatch: exhaustive over (pt, count, P); several bodies each
 	c.Exhaustive("dispatch: all 256 PT x 32 count/FMT x 2 padding-bit header combinations", 256*32*2)
-	reps := c.N(4, 40)
+	reps := c.N(4, 200)
 	c.Section("dispatch", 256*32*2, func(cs *core.Case) {
 		r := cs.R
 		pt := uint8(cs.Idx >> 6)
@@ -213,7 +213,7 @@ func runC07(c *core.Ctx) {
 	}})
 	nT, nU := uint64(len(gen.Registered)), uint64(len(classes))
 	c.Exhaustive("foreign: all ordered (decoder T, class U) pairs", nT*nU-nT)
-	perPair := c.N(2000, 100000)
+	perPair := c.N(2000, 500000)
 	c.Section("foreign", nT*nU*perPair/50, func(cs *core.Case) {
 		r := cs.R
 		pair := cs.Idx % (nT * nU)
@@ -252,7 +252,7 @@ func runC07(c *core.Ctx) {
 	})
 
 	// (3) self-dispatch
-	c.Section("self-dispatch", c.N(150000, 3000000), func(cs *core.Case) {
+	c.Section("self-dispatch", c.N(150000, 12000000), func(cs *core.Case) {
 		k := gen.Registered[cs.Idx%nT]
 		v := gen.Packet(cs.R, k, gen.Opts{NoBig: true})
 		b, err, pan := gMarshal(v)
